@@ -28,6 +28,10 @@ pub async fn declaration(
                             return Ok(None);
                         }
                         if let Some(entry) = doc.table.lookup(&ident.value) {
+                            // early return for default values
+                            if Entry::from(entry).is_default() {
+                                return Ok(None);
+                            }
                             // the name's range is relative to the declaration of the found entry,
                             // not to the declaration the cursor is in
                             let tokens = &doc.tokens[entry.to_range()];
@@ -93,6 +97,10 @@ pub async fn type_definition(
                             return Ok(None);
                         }
                         if let Some(entry) = doc.table.lookup(&ident.value) {
+                            // early return for default values
+                            if Entry::from(entry).is_default() {
+                                return Ok(None);
+                            }
                             match &entry {
                                 GlobalEntry::Type(t) => {
                                     let tokens = &doc.tokens[t.to_range()];
@@ -117,7 +125,7 @@ pub async fn type_definition(
                             match &entry {
                                 Entry::Type(t) => {
                                     // early return for int;
-                                    if &ident.value == "int" {
+                                    if entry.is_default() {
                                         return Ok(None);
                                     }
                                     let tokens = &doc.tokens[t.to_range()];
